@@ -283,6 +283,7 @@ type Facts struct {
 	NondetUsesPkg        [][2]string `json:"nondetUsesPkg"`
 	SeqWriters           [][2]string `json:"seqWriters"`
 	SeqCallers           [][2]string `json:"seqCallers"`
+	SeqReach             [][2]string `json:"seqReach"`
 	KeeperStoreFields    [][3]string `json:"keeperStoreFields"`
 	StoreWriters         [][3]string `json:"storeWriters"`
 	StoreEscapes         [][3]string `json:"storeEscapes"`
@@ -325,6 +326,7 @@ func main() {
 	f.StoreWriters, f.StoreEscapes = w.storeWriters(ks)
 	f.SeqWriters = seqWriters(f.StoreWriters, "relayer")
 	f.SeqCallers = w.seqCallers([]string{"SetProposalSeq", "UpdateRandao"})
+	f.SeqReach = w.seqReach(f.StoreWriters)
 	f.GoroutineAccess = w.goroutineAccess(*depth)
 	f.AnteDecorators = w.anteDecorators()
 	f.MsgServerFirstChecks = w.msgServerFirstChecks(strings.Split(*msgMods, ","))
